@@ -171,7 +171,12 @@ def check(ctx) -> Result:
                     res.bad("LB-parameters-never-cloned", f"{fi_.qualname}:deepcopy", fi_.site(c), fi_.qualname,
                             f"`{src(c)[:60]}` deep-copies circuit components and with them the Parameter objects they hold; the result is stored back into a live circuit, which then no longer follows the user's parameters (updates are ignored, get_all_params returns clones)",
                             construct=src(c)[:120])
-    res.floor("deepcopy sites in sdk/circuit", nd, 2)
+    res.count("deepcopy_sites", nd)
+    # in-place writes to components only on copies made in the same function (components, and the Parameters they hold,
+    # are shared between a circuit, its copies and the circuits it was added to); copy() does not write its receiver
+    from ..rules import rc_owner as _rc
+    _rc.c2_copy_on_write(ctx, res)
+    _rc.c1_self_readonly(ctx, res, [(CIRC, "Circuit.copy", None), (CIRC, "Circuit._freeze_params", None), (CIRC, "Circuit.get_all_params", None)])
     # ---- _build wraps every exception
     b = ctx.func(CIRC, "Circuit._build")
     tries = [n for n in walk_no_nested(b.node) if isinstance(n, ast.Try)]
@@ -256,6 +261,9 @@ def check(ctx) -> Result:
     cp = ctx.func(CIRC, "Circuit.copy")
     deep = any(isinstance(n, ast.Call) and src(n.func) == "self._freeze_params" and ("deepcopy" in src(n) or any(isinstance(a, ast.Name) for a in n.args)) for n in walk_no_nested(cp.node))
     res.add(deep, "H-freeze-on-copy", "Circuit.copy", cp.site(), cp.qualname, "frozen copy substitutes values through _freeze_params", "copy(freeze_parameters=True) no longer substitutes the values", construct="Circuit.copy")
+    from ..rules import rz_falsy
+    nz = rz_falsy.none_checks(ctx, res, "C10", ())
+    res.floor("Z functions scanned", nz, 3)
     return res
 
 
